@@ -31,9 +31,12 @@ _L2T = {}
 
 
 def l2t_obj(o):
-    if o not in _L2T:
+    if not _L2T:
+        # all converter objects are created up front, in a fixed order, in the exploration and in a replay
+        # alike: converters of different option sets must not influence each other
         from pylatexenc.latex2text import LatexNodes2Text
-        _L2T[o] = LatexNodes2Text(strict_latex_spaces=o[0], math_mode=o[1], keep_braced_groups=o[2])
+        for oo in OPTS:
+            _L2T[oo] = LatexNodes2Text(strict_latex_spaces=oo[0], math_mode=oo[1], keep_braced_groups=oo[2])
     return _L2T[o]
 
 
@@ -50,13 +53,15 @@ def iter_docs(tier, shard):
 
 def plan(tier):
     shards = [('docs', (pi, k)) for pi in range(len(PROFILES[tier])) for k in range(NSL)] + [('compose', k) for k in range(16)]
+    shards += [('adj', k) for k in range(8)]
     return dict(
         shards=shards, bounds=dict(profiles=PROFILES[tier], option_sets=len(OPTS)),
         rule=('core grammar (mc/docgen.py SIGS["C"]): ' + '; '.join('size <= %d, <= %s non-default argument forms, <= %d deviations'
               % (p['size'], p['cmax'] if p['cmax'] < 99 else 'any', p['d']) for p in PROFILES[tier]) +
               ' x 32 option sets (4 strict_latex_spaces x 4 math_mode x keep_braced_groups): latex_to_text(strict parse) == reference '
               'renderer, exactly; composition: all ordered pairs of self-contained blocks (derivations of size <= 2 that begin and end '
-              'with text) joined by a paragraph break / a space under every option set.  one evaluation = one document under all option sets; '
+              'with text) joined by a paragraph break / a space under every option set; adjacency family: bare symbol macro, one single-item construct, text, '
+              'at top level / in a group / in each formula form, with one whitespace deviation at every boundary.  one evaluation = one document under all option sets; '
               'non-trivial = documents containing a macro, specials, comment, environment or formula.'),
         assumptions=['the reference renderer works on the parsed tree: C03 presupposes C01/C02 (tree is the written structure)',
                      'symbol / accent / specials tables for the ~25 names used are transcribed from the documentation, not imported'],
@@ -144,7 +149,37 @@ def check_compose(k, acc):
                         break
 
 
+def iter_adjacency(k):
+    """Bare macro + whitespace + one construct + text, at top level and inside every formula form: the
+    adjacency the 'post-space of a bare macro' rule is about (size-3 documents with one forced deviation)."""
+    g = docgen.Grammar('C', cmax=0)
+    middles = [()] + [(it,) for it in g.items(1, False, False, False, False)]
+    idx = 0
+    for sym in docgen.SIGS['C']['syms']:
+        for mid in middles:
+            for tail in ((('T', 'a'),), ()):
+                inner = (('Sym', sym),) + mid + tail
+                for wrap in (None, '$', '\\(', '$$', '\\[', 'G'):
+                    if wrap is not None and any(x[0] in ('Math', 'Par', 'Env') for x in mid):
+                        continue
+                    items = inner if wrap is None else ((('G', inner),) if wrap == 'G' else (('Math', wrap, inner),))
+                    idx += 1
+                    if idx % 8 != k:
+                        continue
+                    base = docgen.render(items, 'C')
+                    # boundaries: find the one right after the symbol (first 'list' boundary after the first token)
+                    for b in range(base.nb):
+                        for dev in (' ', '\n'):
+                            d = docgen.render(items, 'C', {b: dev})
+                            if d.valid:
+                                yield d
+
+
 def run_shard(shard, tier, acc):
+    if shard[0] == 'adj':
+        for doc in iter_adjacency(shard[1]):
+            check_doc(doc, acc, 'adj')
+        return
     if shard[0] == 'docs':
         for doc in iter_docs(tier, shard[1]):
             check_doc(doc, acc)
